@@ -278,7 +278,7 @@ Definition process_msg (fx : bool) (beh : nat -> list op) (s : state) (m : msg) 
   let sig := snd m in
   let s1 :=
     if sig =? h_signum (get s h) then
-      let s' := log s (ECb h sig) in
+      let s' := snap (log s (ECb h sig)) in
       let k := cbcount s' in
       log (script fx (with_cbcount s' (S k)) (beh k)) (ECbEnd h)
     else s in
